@@ -165,8 +165,8 @@ def decodeParameters (s : DecState) (f : FrameIn) : Res ParamsOut := do
   -- :46-47
   let g := gainsDequant (f.gainsIdx.take s.nbSubfr) s.lastGainIndex
              (if f.condCoding = SilkCoreTabs.codeConditionally then 1 else 0)
-  -- :52-78 (C18's model of the NLSF part)
-  let (a0, a1, nlsf) ← decodeNlsfParams (cbOf s.fsKHz) (f.nlsfIdx.take (order + 1)) s.prevNlsf f.interp s.firstFrameAfterReset
+  -- :52-78 (C18's model of the NLSF part; the C code reads `LPC_order` entries of prevNLSF_Q15)
+  let (a0, a1, nlsf) ← decodeNlsfParams (cbOf s.fsKHz) (f.nlsfIdx.take (order + 1)) (s.prevNlsf.take order) f.interp s.firstFrameAfterReset
   let interp := if s.firstFrameAfterReset = 1 then 4 else f.interp
   let prevNlsf := nlsf ++ s.prevNlsf.drop order
   -- :81-84
